@@ -3,7 +3,8 @@ S3BasicFacade) that also holds foreign objects.  After every call: outcome kind,
 entries, bucket key set (+ body checksums).  Every save is additionally crash-probed: on a snapshot of
 the bucket the fake put_object is made to fail on the n-th mutation of that save (n = 0, 1, 2), then a
 FRESH read-only cassette runs lookup (iter_recording_ids) + get_recording + get_recording_metadata for
-every known category and cassette prefix of the case."""
+every known category and cassette prefix of the case.  A context-manager exit (`exit`) leaves the `with` block
+normally or, with "raises": "error" / "interrupt", through an exception raised by the body."""
 import datetime
 import types
 import zlib
@@ -28,6 +29,14 @@ def exn_name(ex):
     if isinstance(ex, (AttributeError, TypeError)):
         return "ShapeError"
     return "other:" + n
+
+
+class BodyError(Exception):
+    """raised by the body of a `with cassette:` block"""
+
+
+class BodyInterrupt(BaseException):
+    """an interrupt (not an Exception subclass, like KeyboardInterrupt) raised by the body of a `with cassette:` block"""
 
 
 class FakeUuid(object):
@@ -191,8 +200,21 @@ def run_c15(case):
             elif kind == "close":
                 cassettes[op["cas"]].close()
             elif kind == "exit":
-                with cassettes[op["cas"]]:
-                    pass
+                how = op.get("raises")
+                if how is None:
+                    with cassettes[op["cas"]]:
+                        pass
+                else:
+                    # the `with` block is left through an exception raised by its body (an ordinary error, or an
+                    # interrupt that is not an Exception); the exception itself is the caller's business
+                    exc = BodyError if how == "error" else BodyInterrupt
+                    try:
+                        with cassettes[op["cas"]]:
+                            raise exc("the body of the with block failed")
+                    except exc:
+                        o["propagated"] = True
+                    else:
+                        o["propagated"] = False
             else:
                 raise ValueError(kind)
         except BaseException as ex:
